@@ -96,6 +96,9 @@ fn run_programs(n: usize) -> Result<BTreeMap<String, Option<String>>, String> {
 /// root-cause signature from the tree and the mismatch
 fn signature(root: &Node, mismatch: &str) -> String {
     let v: serde_json::Value = serde_json::from_str(mismatch).unwrap_or_default();
+    if v.get("panic").is_some() {
+        return "macro:generated-code-panicked".into();
+    }
     let got = v["got"].as_array().cloned().unwrap_or_default();
     let exp = v["expected"].as_array().cloned().unwrap_or_default();
     if got.len() != exp.len() {
@@ -121,16 +124,26 @@ fn signature(root: &Node, mismatch: &str) -> String {
         }
     }
     if v["got_sample_group"] != v["expected_sample_group"] {
-        // known shape: the pair is there, but its name lacks the flatten-prefix chain
+        // known finding D9, matched exactly: the sample-group pairs the implementation yields are
+        // those of the reference interpreter run WITHOUT adding flatten prefixes (field-level and
+        // tuple-variant-level) to the chain - same values, same styles, same container prefixes.
+        // Anything else (a lost container prefix, a wrong style, a missing pair) is a new finding.
         let g = v["got_sample_group"].as_array().cloned().unwrap_or_default();
-        let e = v["expected_sample_group"].as_array().cloned().unwrap_or_default();
-        let only_prefix_missing = g.len() == e.len()
-            && e.iter().all(|ep| {
-                g.iter().any(|gp| {
-                    gp[1] == ep[1] && ep[0].as_str().unwrap_or("").ends_with(gp[0].as_str().unwrap_or("\u{0}"))
-                })
-            });
-        if only_prefix_missing && has_prefixed_flatten(root) {
+        let mut got_pairs: Vec<(String, String)> = g
+            .iter()
+            .map(|p| (p[0].as_str().unwrap_or("").to_string(), p[1].as_str().unwrap_or("").to_string()))
+            .collect();
+        got_pairs.sort();
+        let mut d9_exp = vec![];
+        let mut d9_sg = vec![];
+        expected(
+            root,
+            &crate::c07gen::NameCtx { style: None, chain: String::new(), d9_sample_group_names: true },
+            &mut d9_exp,
+            &mut d9_sg,
+        );
+        d9_sg.sort();
+        if got_pairs == d9_sg && has_prefixed_flatten(root) {
             return "macro:sample-group-name-misses-flatten-prefix".into();
         }
         return "macro:sample-group".into();
@@ -202,7 +215,7 @@ fn classify(root: &Node) -> (Classes, bool) {
     // final name lengths around the 100-byte const-concatenation limit
     let mut exp = vec![];
     let mut sg = vec![];
-    expected(root, &crate::c07gen::NameCtx { style: None, chain: String::new() }, &mut exp, &mut sg);
+    expected(root, &crate::c07gen::NameCtx { style: None, chain: String::new(), d9_sample_group_names: false }, &mut exp, &mut sg);
     for e in &exp {
         match e.name.len() {
             0..=100 => {}
@@ -378,6 +391,7 @@ fn run_batch(ctx: &mut Ctx, name: &'static str, rule: &'static str, crates: Vec<
                             &crate::c07gen::NameCtx {
                                 style: None,
                                 chain: String::new(),
+                                d9_sample_group_names: false,
                             },
                             &mut exp,
                             &mut sg,
